@@ -1,7 +1,6 @@
 use super::allocator::{BlockAllocator, FileStateTracker};
 use super::reader::Reader;
 use crate::wal::block::Block;
-#[cfg(target_os = "linux")]
 use crate::wal::block::Metadata;
 use crate::wal::config::{
     DEFAULT_BLOCK_SIZE, FsyncSchedule, MAX_BATCH_BYTES, MAX_BATCH_ENTRIES, PREFIX_META_SIZE,
@@ -166,6 +165,29 @@ impl Writer {
 
         if batch.is_empty() {
             return Ok(());
+        }
+
+        // Same header-size check as `Block::write`, before any state changes: the header length
+        // depends only on the topic name, and the io_uring path copies it into a fixed buffer.
+        let probe = Metadata {
+            read_size: 0,
+            owned_by: self.col.to_string(),
+            next_block_start: 0,
+            checksum: 0,
+        };
+        let probe_len = rkyv::to_bytes::<_, 256>(&probe)
+            .map_err(|e| {
+                std::io::Error::new(
+                    std::io::ErrorKind::Other,
+                    format!("serialize metadata failed: {:?}", e),
+                )
+            })?
+            .len();
+        if probe_len > PREFIX_META_SIZE - 2 {
+            return Err(std::io::Error::new(
+                std::io::ErrorKind::InvalidData,
+                "metadata too large",
+            ));
         }
 
         // Try to acquire batch write flag
